@@ -14,13 +14,17 @@ namespace NiftyVerif.CrashFS
 
 abbrev Bytes := List Nat
 
-/-- path ↦ `none` (absent) | `some content` -/
-abbrev FS (P : Type) := P → Option Bytes
+/-- path ↦ `none` (absent) | `some content`.  (A structure around the lookup function, so that file systems are values
+    that are computed once, not partial applications re-evaluated at every lookup; `fs p` is `fs.get p`.) -/
+structure FS (P : Type) where
+  get : P → Option Bytes
 
-def FS.empty {P : Type} : FS P := fun _ => none
+instance {P : Type} : CoeFun (FS P) (fun _ => P → Option Bytes) := ⟨FS.get⟩
 
-@[noinline] def FS.set {P : Type} [DecidableEq P] (fs : FS P) (p : P) (v : Option Bytes) : FS P :=
-  fun q => if q = p then v else fs q
+def FS.empty {P : Type} : FS P := ⟨fun _ => none⟩
+
+def FS.set {P : Type} [DecidableEq P] (fs : FS P) (p : P) (v : Option Bytes) : FS P :=
+  ⟨fun q => if q = p then v else fs.get q⟩
 
 inductive Op (P : Type) where
   | mkdir (p : P)                 -- os.makedirs(p, exist_ok=True)
